@@ -7,6 +7,10 @@ from checks import _simutil as U
 from checks import _simctl as S
 from vlib.harness import hyp_part
 
+import os
+
+# the quick tier runs in one process unless VERIF_JOBS asks for more (the box is shared)
+SERIAL = os.environ.get("VERIF_TIER") == "quick" and not os.environ.get("VERIF_JOBS")
 PID = "C42"
 TITLE = "Node-list refreshes make cluster metadata mirror the system tables"
 LEVEL = "exploration"
